@@ -39,10 +39,18 @@ def cplx_dict(rng, notation=None):
     return {'abs': mag, 'phase': ph}, mag * complex(math.cos(ph), math.sin(ph))
 
 
+def _val(rng):
+    """positive value over six decades; one in six is written as an integer ("R": 470), as JSON documents usually are"""
+    x = 10 ** rng.uniform(-2, 4)
+    if x >= 1 and rng.random() < 0.17:
+        return int(round(x))
+    return x
+
+
 def net_entry(rng, kind, eid, n1, n2):
     e = {'type': kind, 'id': eid, 'N1': n1, 'N2': n2}
     ref = {'id': eid, 'n1': n1, 'n2': n2}
-    v = lambda: 10 ** rng.uniform(-2, 4)
+    v = lambda: _val(rng)
     if kind == 'resistor':
         e['R'] = v(); ref.update(kind='Z', Z=e['R'])
     elif kind == 'conductor':
@@ -82,7 +90,7 @@ def net_entry(rng, kind, eid, n1, n2):
 
 def circ_entry(rng, kind, cid, n1, n2):
     """-> (description dict, expected (type, id, nodes, value dict))"""
-    v = lambda: 10 ** rng.uniform(-2, 4)
+    v = lambda: _val(rng)
     v0 = lambda: 0.0 if rng.random() < 0.1 else v()                 # exactly zero is a valid finite value of R, G, V, I
     g0 = lambda: rng.choice([0.0, 0]) if rng.random() < 0.1 else 1 / v()
     s = rng.choice([1, -1])
